@@ -49,17 +49,21 @@ def case_array(case):
             r.close("uniform: T(q_p) == low + p (high - low)", y, low + P * (high - low), rtol=1e-9, atol=1e-9 * (high - low), low=low, high=high, **extra)
             r.true("uniform: values inside [low, high] and increasing", bool(np.all(y >= low) and np.all(y <= high) and np.all(np.diff(y) > 0)), low=low, high=high, **extra)
     elif fn == "arcsin":
-        for a, b in [(None, None), (-1.0, 4.0), (2.0, 2.5)]:
+        for a, b in [(None, None), (-1.0, 4.0), (2.0, 2.5), (-4.0, None), (None, 7.5), (0, None), (None, 0)]:
+            if (a is not None and b is None and a >= mu + math.sqrt(2 * var)) or (b is not None and a is None and b <= mu - math.sqrt(2 * var)):
+                continue
             y = tf.array_to_arcsin(x, mean=mu, var=var, a=a, b=b)
             aa = mu - math.sqrt(2 * var) if a is None else a
             bb = mu + math.sqrt(2 * var) if b is None else b
             r.close("arcsine: T(q_p) == a + (b - a) sin^2(pi p / 2)", y, aa + (bb - aa) * np.sin(np.pi * P / 2) ** 2, rtol=1e-9, atol=1e-9 * (bb - aa), a=a, b=b, **extra)
-            if a is None:
+            if a is None and b is None:
                 # default bounds preserve mean and variance: arcsine law on [a,b] has mean (a+b)/2, variance (b-a)^2/8
                 r.close("arcsine default bounds preserve mean and variance", [(aa + bb) / 2, (bb - aa) ** 2 / 8], [mu, var], rtol=1e-12, atol=1e-14, **extra)
                 r.close("arcsine default bounds as used", [float(y[0]), float(y[-1])], [aa + (bb - aa) * math.sin(math.pi * 1e-6 / 2) ** 2, aa + (bb - aa) * math.sin(math.pi * (1 - 1e-6) / 2) ** 2], rtol=1e-8, atol=1e-9, **extra)
     elif fn == "uquad":
-        for a, b in [(None, None), (-1.0, 4.0), (2.0, 2.5)]:
+        for a, b in [(None, None), (-1.0, 4.0), (2.0, 2.5), (-4.0, None), (None, 7.5), (0, None), (None, 0)]:
+            if (a is not None and b is None and a >= mu + math.sqrt(5.0 / 3.0 * var)) or (b is not None and a is None and b <= mu - math.sqrt(5.0 / 3.0 * var)):
+                continue
             y = tf.array_to_uquad(x, mean=mu, var=var, a=a, b=b)
             aa = mu - math.sqrt(5.0 / 3.0 * var) if a is None else a
             bb = mu + math.sqrt(5.0 / 3.0 * var) if b is None else b
@@ -72,7 +76,7 @@ def case_array(case):
             # cdf of the result equals p
             cdf = al / 3 * ((y - be) ** 3 + (be - aa) ** 3)
             r.close("U-quadratic: F(T(q_p)) == p", cdf, P, rtol=1e-7, atol=1e-9, a=a, b=b, **extra)
-            if a is None:
+            if a is None and b is None:
                 r.close("U-quadratic default bounds preserve mean and variance", [(aa + bb) / 2, 3 * (bb - aa) ** 2 / 20], [mu, var], rtol=1e-12, atol=1e-14, **extra)
     elif fn == "zinnharvey":
         # |z| quantiles: |z|_p = Phi^-1((1+p)/2); the transform maps them to -+ Phi^-1(p)
@@ -204,7 +208,7 @@ def case_wrapper(case):
         "zinnharvey": lambda a: tf.array_zinnharvey(a, conn=kw.get("conn", "high"), mean=marg, var=var),
         "normal_force_moments": lambda a: tf.array_force_moments(a, mean=marg, var=var),
         "boxcox": lambda a: tf.array_boxcox(a, lmbda=kw.get("lmbda", 1), shift=kw.get("shift", 0)),
-        "binary": lambda a: tf.array_discrete(a, values=[marg - math.sqrt(var), marg + math.sqrt(var)], thresholds=[marg]),
+        "binary": lambda a: tf.array_discrete(a, values=[marg - math.sqrt(var) if kw.get("lower") is None else kw["lower"], marg + math.sqrt(var) if kw.get("upper") is None else kw["upper"]], thresholds=[marg if kw.get("divide") is None else kw["divide"]]),
         "discrete": lambda a: tf.array_discrete(a, values=kw["values"], thresholds=kw.get("thresholds", "arithmetic"), mean=marg, var=var),
     }[method]
     y = afn(z)
@@ -253,7 +257,7 @@ def run(chk):
             dc.append({"mode": "explicit", "values": vals, "thresholds": [float(round(t)) for t in th] if len(set(round(t) for t in th)) == len(th) else th, "mu": mu, "var": var})
     chk.run("discrete", case_discrete, dc, rule="discrete transform with 2-5 classes x thresholds {arithmetic, equal, explicit (incl. integers)} x (mu, sigma^2): inputs are the probability grid plus every threshold, its two floating-point neighbours and +-1e-9: output set and partition at the thresholds, equal-probability classes")
     wc = []
-    methods = [("normal_to_lognormal", {}), ("normal_to_uniform", {"low": -2.0, "high": 6.0}), ("normal_to_uniform", {}), ("normal_to_arcsin", {}), ("normal_to_arcsin", {"a": -1.0, "b": 4.0}), ("normal_to_uquad", {}), ("zinnharvey", {"conn": "low"}), ("zinnharvey", {}), ("normal_force_moments", {}), ("boxcox", {"lmbda": 0.5, "shift": 3.0}), ("binary", {}), ("discrete", {"values": [0.0, 1.0, 2.0]}), ("discrete", {"values": [0.0, 1.0, 2.0], "thresholds": "equal"})]
+    methods = [("normal_to_lognormal", {}), ("normal_to_uniform", {"low": -2.0, "high": 6.0}), ("normal_to_uniform", {}), ("normal_to_arcsin", {}), ("normal_to_arcsin", {"a": -1.0, "b": 4.0}), ("normal_to_uquad", {}), ("zinnharvey", {"conn": "low"}), ("zinnharvey", {}), ("normal_force_moments", {}), ("boxcox", {"lmbda": 0.5, "shift": 3.0}), ("binary", {}), ("binary", {"divide": 0}), ("binary", {"divide": 0.0, "upper": 0, "lower": -1}), ("binary", {"divide": 1.3, "upper": 5.0, "lower": 0.0}), ("normal_to_uquad", {"a": -4.0}), ("normal_to_uquad", {"b": 7.5}), ("normal_to_arcsin", {"a": -4.0}), ("normal_to_arcsin", {"b": 7.5}), ("normal_to_uniform", {"low": 0, "high": 3}), ("discrete", {"values": [0.0, 1.0, 2.0]}), ("discrete", {"values": [0.0, 1.0, 2.0], "thresholds": "equal"})]
     for (method, kw), (mu, var), process, keep_mean, (src, dst), tk, nk in itertools.product(methods, MOMENTS[1:] if tier == "quick" else MOMENTS, (False, True), (True, False), (("field", True), ("field", "out"), ("f2", "out"), ("field", False)), ("none", "call"), ("none", "yj")):
         if not process and not keep_mean and method in ("normal_to_lognormal", "boxcox"):
             pass
